@@ -239,80 +239,107 @@ func c10(c *core.Ctx, r *core.Report) {
 				}
 				n++
 				key := core.FuncName(e.Instr.Parent())
-				// which case is this store made in?
-				empty, known := false, false
+				// which case is this store made in? (a value merged from several assignments is judged edge by edge, each
+				// under the conditions of its own edge)
+				var suffixes []string
+				judge := func(val ssa.Value, guards []an.Guard) bool {
+					empty, known := false, false
+					for _, g := range guards {
+						bo, isBin := g.Cond.(*ssa.BinOp)
+						if !isBin || !isLenList(g.T(bo.X)) {
+							continue
+						}
+						k, isK := constInt(bo.Y)
+						if !isK {
+							continue
+						}
+						known = true
+						switch {
+						case bo.Op == token.EQL && k == 0, bo.Op == token.LSS && k == 1, bo.Op == token.LEQ && k == 0:
+							empty = g.Polarity
+						case bo.Op == token.NEQ && k == 0, bo.Op == token.GTR && k == 0, bo.Op == token.GEQ && k == 1:
+							empty = !g.Polarity
+						default:
+							known = false
+						}
+					}
+					d := an.D().Of(val)
+					if !known {
+						// a default of 0 set first and overwritten under "a stage is already stored": every way from here to
+						// the append passes that test
+						if k, isK := val.(*ssa.Const); isK && k.Value != nil && k.Int64() == 0 {
+							covered := false
+							for _, b := range st.Parent().Blocks {
+								iff, isIf := b.Instrs[len(b.Instrs)-1].(*ssa.If)
+								if !isIf {
+									continue
+								}
+								bo, isBin := iff.Cond.(*ssa.BinOp)
+								if !isBin || !isLenList(bo.X) {
+									continue
+								}
+								for _, ap := range appends {
+									if ap.Instr.Parent() == st.Parent() && !reachesAvoiding(st.Block(), ap.Instr, iff) {
+										covered = true
+									}
+								}
+							}
+							if covered {
+								sawFirst = true
+								r.OK(key+"#first", an.Pos(c, st), "start target defaults to 0 and is overwritten only when a stage is already stored")
+								return false
+							}
+						}
+						r.Undecided(key+"#emptiness", an.Pos(c, st), "a StartTarget is set without a test whether a stage is already stored")
+						return false
+					}
+					if empty {
+						sawFirst = true
+						k, isK := val.(*ssa.Const)
+						if !isK {
+							// a field or parameter whose only source in the module is a constant
+							k, isK = singleSource(c, val).(*ssa.Const)
+						}
+						r.Check(isK && k.Value != nil && k.Int64() == 0, key+"#first", an.Pos(c, st), "first stage starts at 0", "the first stage starts at "+d+" instead of 0")
+					} else {
+						sawChain = true
+						okChain := false
+						if efa, isE := val.(*ssa.FieldAddr); isE && an.FieldOfAddr(efa).Name() == "EndTarget" {
+							if ia, isIA := an.Strip(efa.X).(*ssa.IndexAddr); isIA && isList(ia.X) {
+								if bo, isBin := an.Strip(ia.Index).(*ssa.BinOp); isBin && bo.Op == token.SUB && isLenList(bo.X) {
+									if k, isK := constInt(bo.Y); isK && k == 1 {
+										okChain = true
+									}
+								}
+							}
+						}
+						r.Check(okChain, key+"#chain", an.Pos(c, st), "StartTarget ← "+d, "a stage's start target is "+d+", not the previous stage's end target: the profile jumps at the stage boundary")
+					}
+					suffixes = append(suffixes, map[bool]string{true: "-first", false: "-chain"}[empty])
+					return true
+				}
+				var evGuards []an.Guard
 				for _, fg := range an.GuardsOfEvent(e) {
-					g := fg.Guard
-					bo, isBin := g.Cond.(*ssa.BinOp)
-					if !isBin || !isLenList(g.T(bo.X)) {
-						continue
-					}
-					k, isK := constInt(bo.Y)
-					if !isK {
-						continue
-					}
-					known = true
-					switch {
-					case bo.Op == token.EQL && k == 0, bo.Op == token.LSS && k == 1, bo.Op == token.LEQ && k == 0:
-						empty = g.Polarity
-					case bo.Op == token.NEQ && k == 0, bo.Op == token.GTR && k == 0, bo.Op == token.GEQ && k == 1:
-						empty = !g.Polarity
-					default:
-						known = false
-					}
+					evGuards = append(evGuards, fg.Guard)
 				}
-				val := an.EventFV(e, st.Val).Resolve(nil).V
-				d := an.D().Of(val)
-				if !known {
-					// a default of 0 set first and overwritten under "a stage is already stored": every way from here to
-					// the append passes that test
-					if k, isK := val.(*ssa.Const); isK && k.Value != nil && k.Int64() == 0 {
-						covered := false
-						for _, b := range st.Parent().Blocks {
-							iff, isIf := b.Instrs[len(b.Instrs)-1].(*ssa.If)
-							if !isIf {
-								continue
-							}
-							bo, isBin := iff.Cond.(*ssa.BinOp)
-							if !isBin || !isLenList(bo.X) {
-								continue
-							}
-							for _, ap := range appends {
-								if ap.Instr.Parent() == st.Parent() && !reachesAvoiding(st.Block(), ap.Instr, iff) {
-									covered = true
-								}
-							}
+				val0 := an.EventFV(e, st.Val).Resolve(nil).V
+				goOn := true
+				if phi, isPhi := val0.(*ssa.Phi); isPhi && phi.Parent() == st.Parent() {
+					for i, edge := range phi.Edges {
+						pred := phi.Block().Preds[i]
+						guards := append([]an.Guard(nil), an.GuardsOf(pred)...)
+						if iff, isIf := pred.Instrs[len(pred.Instrs)-1].(*ssa.If); isIf {
+							guards = append(guards, an.Guard{If: iff, Cond: stripNot(iff.Cond), Polarity: (pred.Succs[0] == phi.Block()) != isNegated(iff.Cond)})
 						}
-						if covered {
-							sawFirst = true
-							r.OK(key+"#first", an.Pos(c, st), "start target defaults to 0 and is overwritten only when a stage is already stored")
-							return
+						if !judge(an.FV{V: edge, F: e.Frame}.Resolve(nil).V, guards) {
+							goOn = false
 						}
 					}
-					r.Undecided(key+"#emptiness", an.Pos(c, st), "a StartTarget is set without a test whether a stage is already stored")
-					return
-				}
-				if empty {
-					sawFirst = true
-					k, isK := val.(*ssa.Const)
-					if !isK {
-						// a field or parameter whose only source in the module is a constant
-						k, isK = singleSource(c, val).(*ssa.Const)
-					}
-					r.Check(isK && k.Value != nil && k.Int64() == 0, key+"#first", an.Pos(c, st), "first stage starts at 0", "the first stage starts at "+d+" instead of 0")
 				} else {
-					sawChain = true
-					okChain := false
-					if efa, isE := val.(*ssa.FieldAddr); isE && an.FieldOfAddr(efa).Name() == "EndTarget" {
-						if ia, isIA := an.Strip(efa.X).(*ssa.IndexAddr); isIA && isList(ia.X) {
-							if bo, isBin := an.Strip(ia.Index).(*ssa.BinOp); isBin && bo.Op == token.SUB && isLenList(bo.X) {
-								if k, isK := constInt(bo.Y); isK && k == 1 {
-									okChain = true
-								}
-							}
-						}
-					}
-					r.Check(okChain, key+"#chain", an.Pos(c, st), "StartTarget ← "+d, "a stage's start target is "+d+", not the previous stage's end target: the profile jumps at the stage boundary")
+					goOn = judge(val0, evGuards)
+				}
+				if !goOn {
+					return
 				}
 				// the stage whose start was set is the one appended, afterwards
 				appended := false
@@ -329,7 +356,9 @@ func c10(c *core.Ctx, r *core.Report) {
 						}
 					}
 				}
-				r.Check(appended, key+"#appended"+map[bool]string{true: "-first", false: "-chain"}[empty], an.Pos(c, st), "the stage is appended to the list after its start target was set", "the stage whose start target is set here is not the one appended to the list afterwards")
+				for _, sfx := range suffixes {
+					r.Check(appended, key+"#appended"+sfx, an.Pos(c, st), "the stage is appended to the list after its start target was set", "the stage whose start target is set here is not the one appended to the list afterwards")
+				}
 				// it is the loop's element of the list given: every stage once, in order
 				if al, isAl := fa.X.(*ssa.Alloc); isAl {
 					for _, init := range an.StoresTo(al) {
@@ -339,7 +368,9 @@ func c10(c *core.Ctx, r *core.Report) {
 						if okAll {
 							_, okAll = upperGuard(ia.Block(), ia.Index, ia.X, func(a, b ssa.Value) bool { return a == b })
 						}
-						r.Check(okAll, key+"#all-stages"+map[bool]string{true: "-first", false: "-chain"}[empty], an.Pos(c, init), "every stage of the list is chained exactly once, in list order", "the stage being chained is "+an.D().Of(src.V)+", not the element of a single forward pass over the stages given")
+						for _, sfx := range suffixes {
+							r.Check(okAll, key+"#all-stages"+sfx, an.Pos(c, init), "every stage of the list is chained exactly once, in list order", "the stage being chained is "+an.D().Of(src.V)+", not the element of a single forward pass over the stages given")
+						}
 					}
 				}
 			})
@@ -430,6 +461,34 @@ func c10(c *core.Ctx, r *core.Report) {
 		}
 		for _, ret := range an.Returns(accFn) {
 			phi, ok := ret.Results[0].(*ssa.Phi)
+			if k, isK := ret.Results[0].(*ssa.Const); isK && k.Value != nil && k.Int64() == 0 {
+				// the sum over no stages, returned early when the list is empty
+				onlyEmpty := false
+				for _, g := range an.GuardsOf(ret.Block()) {
+					bo, isBin := g.Cond.(*ssa.BinOp)
+					if !isBin {
+						continue
+					}
+					ln, isLen := an.Strip(g.T(bo.X)).(*ssa.Call)
+					if !isLen || !an.IsBuiltinCall(ln, "len") || !isStages(ln.Call.Args[0]) {
+						continue
+					}
+					kk, isKK := constInt(bo.Y)
+					if !isKK {
+						continue
+					}
+					switch {
+					case bo.Op == token.EQL && kk == 0, bo.Op == token.LSS && kk == 1, bo.Op == token.LEQ && kk == 0:
+						onlyEmpty = onlyEmpty || g.Polarity
+					case bo.Op == token.NEQ && kk == 0, bo.Op == token.GTR && kk == 0, bo.Op == token.GEQ && kk == 1:
+						onlyEmpty = onlyEmpty || !g.Polarity
+					}
+				}
+				if onlyEmpty {
+					r.OK("MaxDuration#empty", an.Pos(c, ret), "0 returned early only when there are no stages")
+					continue
+				}
+			}
 			if !ok {
 				r.Violation("MaxDuration#sum", an.Pos(c, ret), "MaxDuration returns %s, not an accumulator over the stages", an.D().Of(ret.Results[0]))
 				continue
@@ -511,7 +570,7 @@ func c10(c *core.Ctx, r *core.Report) {
 				}
 				lit := an.StructLiteralOf(ret.Results[0])
 				var litF *an.Frame
-								if lit == nil && an.IsNamed(ret.Results[0].Type(), apiPkg, "Trigger") {
+				if lit == nil && an.IsNamed(ret.Results[0].Type(), apiPkg, "Trigger") {
 					// built by a helper (a shared trigger constructor): the literal in the helper's frame
 					rv := an.RootFV(fn, ret.Results[0]).Resolve(nil)
 					if al, isAl := rv.V.(*ssa.Alloc); isAl && rv.F != nil && rv.F.Parent != nil {
@@ -1613,4 +1672,25 @@ func mirrorCmp(op token.Token) token.Token {
 		return token.LEQ
 	}
 	return op
+}
+
+func stripNot(v ssa.Value) ssa.Value {
+	for {
+		u, ok := v.(*ssa.UnOp)
+		if !ok || u.Op != token.NOT {
+			return v
+		}
+		v = u.X
+	}
+}
+
+func isNegated(v ssa.Value) bool {
+	neg := false
+	for {
+		u, ok := v.(*ssa.UnOp)
+		if !ok || u.Op != token.NOT {
+			return neg
+		}
+		v, neg = u.X, !neg
+	}
 }
